@@ -479,3 +479,87 @@ func (v *IView) rootReturns() []ivInstr {
 }
 
 var _ = token.NoPos
+
+// exhaustiveDispatch: on the inlined view, the value of parameter p is compared for equality with
+// every value in want, and an execution on which all those comparisons fail cannot reach a
+// return of the root function (it panics): a switch or if-chain over an enumeration with a
+// panicking default, wherever it sits.
+func exhaustiveDispatch(v *IView, p *ssa.Parameter, want []int64) bool {
+	if v.entry == nil {
+		return false
+	}
+	type cmpNode struct {
+		n      *ivNode
+		eqEdge int
+		k      int64
+	}
+	cmps := map[int]cmpNode{}
+	seenK := map[int64]bool{}
+	for _, n := range v.nodes {
+		if v.idom[n.id] == -1 || n.hi != len(n.blk.Instrs) || n.hi == 0 {
+			continue
+		}
+		iff, ok := n.blk.Instrs[n.hi-1].(*ssa.If)
+		if !ok || len(n.succs) != 2 {
+			continue
+		}
+		a := atomOf(iff.Cond)
+		if a.Kind != "cmp" || (a.Op != token.EQL && a.Op != token.NEQ) {
+			continue
+		}
+		x, y := a.X, a.Y
+		k, isConst := constInt(y)
+		if !isConst {
+			if k2, ok2 := constInt(x); ok2 {
+				x, k, isConst = y, k2, true
+			}
+		}
+		if !isConst || !v.DerivedFrom(x, n.fr, p, "") {
+			continue
+		}
+		eq := 0
+		if a.Op == token.NEQ {
+			eq = 1
+		}
+		cmps[n.id] = cmpNode{n, eq, k}
+		seenK[k] = true
+	}
+	for _, k := range want {
+		if !seenK[k] {
+			return false
+		}
+	}
+	// executions on which every comparison fails
+	type st struct {
+		id     int
+		passed bool
+	}
+	seen := map[st]bool{}
+	stack := []st{{v.entry.id, false}}
+	rootRet := map[*ivNode]bool{}
+	for _, r := range v.rootReturns() {
+		if n, _ := v.nodeOf(r); n != nil {
+			rootRet[n] = true
+		}
+	}
+	for len(stack) > 0 {
+		s := stack[len(stack)-1]
+		stack = stack[:len(stack)-1]
+		if seen[s] {
+			continue
+		}
+		seen[s] = true
+		n := v.nodes[s.id]
+		if s.passed && rootRet[n] {
+			return false
+		}
+		if c, isCmp := cmps[s.id]; isCmp {
+			stack = append(stack, st{n.succs[1-c.eqEdge].id, true})
+			continue
+		}
+		for _, nx := range n.succs {
+			stack = append(stack, st{nx.id, s.passed})
+		}
+	}
+	return true
+}
